@@ -157,10 +157,28 @@ def requests(case, obs):
         if not obs["score_finite"]:
             return []
         rev = M.METHODS[case["spec"]["name"]]["rev"]
-        return [{"op": "rank", "scores": C.rats(obs["score"]), "reverse": rev}]
+        reqs = [{"op": "rank", "scores": C.rats(obs["score"]), "reverse": rev}]
+        e2e = _e2e(case)
+        if e2e:
+            reqs.append(e2e)
+        return reqs
     if kind in ("mkrank", "mkagg"):
         return [{"op": "validrank", "values": case["values"]}]
     return []
+
+
+E2E = {"WSM": "wsm", "RatioMOORA": "ratio", "RefPointMOORA": "refpoint"}
+
+
+def _e2e(case):
+    """end-to-end model run (guards -> kernel -> rank_values -> result) for the methods whose arithmetic is exact on
+    dyadic input, so that ties are ties on both sides"""
+    name = case["spec"]["name"]
+    dm = case["dm"]
+    if name not in E2E or dm.get("family") != "dyadic" or case.get("near"):
+        return None
+    return {"op": "evaluate", "method": E2E[name], "M": C.ratmat(dm["matrix"]), "O": ["max" if o == 1 else "min" for o in dm["objectives"]],
+            "w": C.rats(dm["weights"]), "alts": dm["alternatives"]}
 
 
 def _wellformed(ranks):
@@ -224,6 +242,11 @@ def judge(case, obs, replies):
             break
         if replies and replies[0].get("ranks") != ranks:
             corr(f"{name}: rank_values model vs implementation", replies[0].get("ranks"), ranks)
+        if len(replies) > 1:
+            e = replies[1]
+            if e.get("alts") != obs["alts"] or e.get("rank") != ranks or [float(C.frac(x)) for x in e.get("score", [])] != score:
+                corr(f"{name}: end-to-end evaluate (guards, kernel, rank, result), model vs implementation",
+                     {k: e.get(k) for k in ("err", "alts", "rank")}, {"alts": obs["alts"], "rank": ranks})
         return out
     if kind in ("mkrank", "mkagg"):
         v = case["values"]
